@@ -61,6 +61,10 @@ class Once:
     def __repr__(self): return 'Once()'
     def __hash__(self): return 11
     def __eq__(self, o): return isinstance(o, Once)
+def ident(x):
+    return x
+def first(xs):
+    return xs[0]
 class Decline:
     """declines everything"""
     def __add__(self, o): return NotImplemented
@@ -201,7 +205,7 @@ def chains_chunk(seeds, extra):
     setup_repo_path()
     w = World()
     out = []
-    classes = ["int", "negint", "zero", "float", "bool", "str", "list", "tuple", "set", "complex"]
+    classes = ["int", "negint", "zero", "float", "bool", "str", "list", "tuple", "set", "complex", "fwd", "valobj", "sub", "iterobj"]
     binops = [o for o in BIN if o not in LEFT_ONLY]
     for seed in seeds:
         rng = random.Random(seed)
@@ -209,6 +213,21 @@ def chains_chunk(seeds, extra):
         p, r = w.pair(cls)
         events, steps = [], []
         for _ in range(rng.randint(2, 3)):
+            if rng.random() < 0.3 and cls in ("fwd", "valobj", "iterobj"):
+                # (user objects: values with a literal repr are inlined into the call, which is C06's business)
+                # the result goes back into student code as an argument and comes out again (directly, or inside a
+                # list): what the student's function returns is then itself a proxy, wrapped once more
+                how = rng.choice(["ident", "first"])
+                prox = outcome(lambda a: w.S.call("ident", a) if how == "ident" else w.S.call("first", [a]), p)
+                real = ("ok", r, 0)
+                steps.append(["through", how, "-"])
+                same_class = prox[0] == "ok" and isinstance(prox[1], type(r)) and type(unwrap(prox[1])) is type(r)
+                events.append({"real": "ok", "prox": prox[0], "equal": bool(prox[0] == "ok" and same_class and same(r, prox[1])),
+                               "notimpl": False, "out": prox[2]})
+                if prox[0] != "ok":
+                    break
+                p = prox[1]
+                continue
             if rng.random() < 0.7:
                 op = rng.choice(binops)
                 ocls = rng.choice(classes)
